@@ -55,6 +55,10 @@ type docSpec struct {
 type fracSpec struct {
 	Sealed bool      `json:"sealed"`
 	Docs   []docSpec `json:"docs"`
+	// RetryFrom > 0: Docs[RetryFrom:] reach the fraction in one last, partly retried bulk - in the listed order,
+	// followed by the first RetryDup documents of Docs once more (already stored: the indexer filters them out)
+	RetryFrom int `json:"retry_from,omitempty"`
+	RetryDup  int `json:"retry_dup,omitempty"`
 }
 
 // hint: -1 none, k >= 0 the name of fraction k, -2 a name no fraction has
@@ -170,7 +174,11 @@ func newStore(sc *scenario) (*store, error) {
 			return err
 		}
 		pending := 0
-		for _, d := range f.Docs {
+		normal := f.Docs
+		if f.RetryFrom > 0 && f.RetryFrom < len(f.Docs) {
+			normal = f.Docs[:f.RetryFrom]
+		}
+		for _, d := range normal {
 			doc := docBytes(d.MID, d.RID, d.Size)
 			dp.Append(doc, nil, seq.ID{MID: seq.MID(d.MID), RID: seq.RID(d.RID)}, seq.Tokens("_all_:", "service:c04"))
 			pending += len(doc)
@@ -183,6 +191,16 @@ func newStore(sc *scenario) (*store, error) {
 		}
 		if err := flush(); err != nil {
 			return nil, err
+		}
+		if len(normal) < len(f.Docs) { // the partly retried bulk
+			fm.WaitIdle()
+			retry := append(append([]docSpec{}, f.Docs[f.RetryFrom:]...), normal[:min(f.RetryDup, len(normal))]...)
+			for _, d := range retry {
+				dp.Append(docBytes(d.MID, d.RID, d.Size), nil, seq.ID{MID: seq.MID(d.MID), RID: seq.RID(d.RID)}, seq.Tokens("_all_:", "service:c04"))
+			}
+			if err := flush(); err != nil {
+				return nil, err
+			}
 		}
 		fm.WaitIdle()
 		st.names = append(st.names, fm.Active().Info().Name())
@@ -229,7 +247,31 @@ func (s *fakeStream) Send(d *pb.BinaryData) error {
 // Returns "" when the property holds, else a description (prefix "error:" when the request failed).
 var lateFound, lateMissing int // late documents answered verbatim / not yet visible (child process counters)
 
+// warmFilter: a fetch WITH a field filter (allow-list and block-list in turn) of the request's first IDs, on the same
+// goroutine right before the request itself, which carries no filter: the pooled filter object of the store is
+// handed from one to the other, and the answer of the unfiltered request must still be the stored bytes.
+var warmCount int
+
+func warmFilter(st *store, r request) {
+	if len(r.IDs) == 0 {
+		return
+	}
+	warmCount++
+	ff := &pb.FetchRequest_FieldsFilter{Fields: []string{"m"}, AllowList: true}
+	if warmCount%2 == 0 {
+		ff = &pb.FetchRequest_FieldsFilter{Fields: []string{"p", "r"}, AllowList: false}
+	}
+	req := &pb.FetchRequest{FieldsFilter: ff}
+	for _, id := range r.IDs[:min(3, len(r.IDs))] {
+		req.Ids = append(req.Ids, seq.ID{MID: seq.MID(id.MID), RID: seq.RID(id.RID)}.String())
+	}
+	_ = st.g.Fetch(req, &fakeStream{ctx: context.Background()})
+}
+
 func runRequest(st *store, sc *scenario, r request) string {
+	if len(r.Late) == 0 {
+		warmFilter(st, r)
+	}
 	req := &pb.FetchRequest{}
 	withHints := false
 	for _, id := range r.IDs {
@@ -810,6 +852,40 @@ func genScenario(r *vh.RNG, name string, shape int, thorough bool) scenario {
 		for i := 0; i < 4; i++ {
 			sc.Reqs = append(sc.Reqs, genSegmentedRequest(r, sc.Fracs, i))
 		}
+	case 8: // the last bulk of a fraction is a partly retried one: new documents above the fraction's To, newest first
+		sc.Fracs = genFracs(r, 1+r.Intn(3), 8, mixed, r.Bool())
+		var fresh []reqID
+		for k := range sc.Fracs {
+			f := &sc.Fracs[k]
+			_, to := f.borders()
+			f.RetryFrom = len(f.Docs)
+			f.RetryDup = 1 + r.Intn(min(3, len(f.Docs)))
+			nn := 1
+			if r.Bool() {
+				nn = 2 + r.Intn(4)
+			}
+			for i := 0; i < nn; i++ { // descending timestamps
+				d := docSpec{MID: to + uint64(2*(nn-i)), RID: uint64(30000 + 100*k + 2*i), Size: mixed()}
+				f.Docs = append(f.Docs, d)
+				hint := -1
+				if r.Intn(3) == 0 {
+					hint = k
+				}
+				fresh = append(fresh, reqID{MID: d.MID, RID: d.RID, Hint: hint})
+			}
+		}
+		for _, id := range fresh { // each new document alone, then all of them, then mixed requests
+			sc.Reqs = append(sc.Reqs, request{Class: fmt.Sprintf("doc-of-partly-retried-bulk n=1 hints=%s", vh.B(id.Hint >= 0)), IDs: []reqID{id}})
+		}
+		all := request{Class: "doc-of-partly-retried-bulk n=" + bucket(len(fresh)) + " hints=0"}
+		for _, id := range fresh {
+			id.Hint = -1
+			all.IDs = append(all.IDs, id)
+		}
+		sc.Reqs = append(sc.Reqs, all)
+		for i := 0; i < 6; i++ {
+			sc.Reqs = append(sc.Reqs, genRequest(r, sc.Fracs, 1+r.Intn(12), []int{0, 20, 50}[r.Intn(3)], absentClasses, r.Intn(3) == 0, orders[r.Intn(3)]))
+		}
 	case 4: // 100k IDs, mostly absent, over one mid-sized fraction pair
 		sc.Fracs = genFracs(r, 2, 3000, func() int { return 200 + r.Intn(200) }, false)
 		sc.Reqs = append(sc.Reqs, genRequest(r, sc.Fracs, 100000, 95, []string{"inside", "above-all", "below-all"}, false, "random"))
@@ -914,6 +990,9 @@ func minimise(sc scenario, site, class string, budget int) scenario {
 	// 3. drop documents
 	for k := range fracs {
 		docs := fracs[k].Docs
+		if fracs[k].RetryFrom > 0 {
+			continue // the indexes of the retried bulk refer to this document list
+		}
 		for chunk := (len(docs) + 1) / 2; chunk >= 1 && len(docs) > 1; chunk /= 2 {
 			for start := 0; start < len(docs) && len(docs) > 1; {
 				end := min(len(docs), start+chunk)
@@ -1443,6 +1522,84 @@ func plus[T ~int | ~uint64](xs []T) string {
 	return strings.Join(ss, "+")
 }
 
+// filterStatsChannel: metaDataCollector.Filter (through C17's collector wrapper) vs SV.Fetch.filterStats / keptIDs.
+func filterStatsChannel(o vh.Opts, r *vh.RNG) *vh.Channel {
+	ch := vh.NewChannel("filterstats", "metaDataCollector.Filter(appended) after AppendMeta of a bulk's ids: MinMID, MaxMID and the kept ids vs SV.Fetch.filterStats / keptIDs. Exhaustive: every ordered selection of 1..4 out of 5 ids (3 timestamps) x every subset as the appended set; then random bulks of up to 30 ids in random, ascending and descending order; non-trivial = some but not all ids appended")
+	ch.Exhaustive = true
+	run := func(ids []seq.ID, appended []seq.ID, tag string) {
+		c := frac.VerifNewCollectorC17()
+		c.Init(0)
+		for _, id := range ids {
+			c.AppendMeta(frac.MetaData{ID: id, Size: 10})
+		}
+		c.Filter(appended)
+		st := c.State()
+		ch.Add(fmt.Sprintf("filterstats %s %s", fmtIDs(ids), fmtIDs(appended)),
+			fmt.Sprintf("ok min=%d max=%d kept=%s", uint64(st.MinMID), uint64(st.MaxMID), fmtIDs(st.IDs)), len(appended) > 0 && len(appended) < len(ids), tag)
+	}
+	univ := []seq.ID{{MID: 5, RID: 1}, {MID: 5, RID: 2}, {MID: 7, RID: 1}, {MID: 9, RID: 1}, {MID: 9, RID: 3}}
+	var rec func(cur []int)
+	rec = func(cur []int) {
+		if len(cur) > 0 {
+			ids := make([]seq.ID, len(cur))
+			for i, u := range cur {
+				ids[i] = univ[u]
+			}
+			for m := 0; m < 1<<len(cur); m++ {
+				var app []seq.ID
+				for i := range cur {
+					if m>>i&1 == 1 {
+						app = append(app, ids[i])
+					}
+				}
+				run(ids, app, fmt.Sprintf("exh-n=%d", len(cur)))
+			}
+		}
+		if len(cur) == 4 {
+			return
+		}
+		for u := range univ {
+			used := false
+			for _, c := range cur {
+				used = used || c == u
+			}
+			if !used {
+				rec(append(append([]int{}, cur...), u))
+			}
+		}
+	}
+	rec(nil)
+	for i := 0; i < o.Pick(300, 5000); i++ {
+		n := 1 + r.Intn(30)
+		seen := map[seq.ID]bool{}
+		var ids []seq.ID
+		for len(ids) < n {
+			id := seq.ID{MID: seq.MID(1000 + r.Intn(40)), RID: seq.RID(r.Intn(5))}
+			if !seen[id] {
+				seen[id] = true
+				ids = append(ids, id)
+			}
+		}
+		order := []string{"random", "asc", "desc"}[r.Intn(3)]
+		switch order {
+		case "asc":
+			sort.Slice(ids, func(a, b int) bool { return seq.Less(ids[a], ids[b]) })
+		case "desc":
+			sort.Slice(ids, func(a, b int) bool { return seq.Less(ids[b], ids[a]) })
+		}
+		var app []seq.ID
+		p := []int{10, 50, 90}[r.Intn(3)]
+		for _, id := range ids {
+			if r.Intn(100) < p {
+				app = append(app, id)
+			}
+		}
+		// the appended ids come back from SetMultiple in the bulk's order
+		run(ids, app, "random-"+order)
+	}
+	return ch
+}
+
 // fakeFrac: a fraction that is only its Info (name, From, To, DocsTotal) - what groupIDsByFraction looks at.
 type fakeFrac struct{ info *frac.Info }
 
@@ -1710,7 +1867,7 @@ func main() {
 	rep := vh.NewReport("C04", o)
 	rng := vh.NewRNG(o.Seed)
 
-	orc := vh.NewOracle("fetch.stream", "real storeapi.GrpcV1.Fetch (child process; FracManager with sealed and active fractions, Fetcher, background batch loader) vs the ingested bytes: one entry per requested ID in request order, Ext1/Ext2 = ID, payload = exactly the ingested bytes or empty, no error, process alive; non-trivial = request mixes present and absent IDs")
+	orc := vh.NewOracle("fetch.stream", "real storeapi.GrpcV1.Fetch (child process; FracManager with sealed and active fractions, Fetcher, background batch loader) vs the ingested bytes: one entry per requested ID in request order, Ext1/Ext2 = ID, payload = exactly the ingested bytes or empty, no error, process alive; every request is preceded, on the same goroutine, by a fetch of its first IDs WITH a field filter (allow-list / block-list in turn) while the request itself carries none - the pooled filter must not leak into it; scenarios cover overlapping fractions, multi-chunk requests over fraction subsets, small DocBlockSize, SkipSortDocs, a bulk racing with the active provider, same-millisecond runs across ID blocks, partly retried bulks (new documents above the fraction's To, newest first); non-trivial = request mixes present and absent IDs")
 
 	if o.Replay != "" {
 		lines, err := vh.ReadReplay(o.Replay)
@@ -1750,6 +1907,9 @@ func main() {
 		rep.AddChannel(b, o.Driver)
 		rep.AddChannel(c, o.Driver)
 	}
+	if run("filterstats") {
+		rep.AddChannel(filterStatsChannel(o, rng.Fork()), o.Driver)
+	}
 	if run("groupids") {
 		rep.AddChannel(groupIDsChannel(o, rng.Fork()), o.Driver)
 	}
@@ -1758,10 +1918,10 @@ func main() {
 	}
 	if run("fetch.stream") {
 		r := rng.Fork()
-		shapes := []int{0, 0, 0, 1, 1, 2, 3, 5, 6, 7, 7}
+		shapes := []int{0, 0, 0, 1, 1, 2, 3, 5, 6, 7, 7, 8, 8}
 		if o.Thorough() {
 			shapes = nil
-			for sh, n := range []int{60, 20, 8, 6, 2, 12, 6, 16} {
+			for sh, n := range []int{60, 20, 8, 6, 2, 12, 6, 16, 16} {
 				for i := 0; i < n; i++ {
 					shapes = append(shapes, sh)
 				}
